@@ -193,6 +193,10 @@ type PolicyChooser struct {
 	starve  int
 }
 
+// Scale (flag -sim.scale) multiplies the size bounds of the generators: 1 in the
+// quick tier, 3 in the thorough tier (longer contents, histories and inputs).
+var Scale = 1
+
 // CoarseMode (flag -sim.coarse): pre-empt at operation boundaries only.
 var CoarseMode = false
 
